@@ -3,6 +3,7 @@ import Exetera.Spec.Catalogue
 import Exetera.Lemmas.CatalogueViews
 import Exetera.Lemmas.CatalogueReopen
 import Exetera.Lemmas.CatalogueAtomic
+import Exetera.Lemmas.CatalogueHeap
 /-!
   C15 — the catalogue stays consistent under any history of structural edits.
   All theorems are about `Exetera.Catalogue.step .repaired` / `run .repaired`, the functions the driver executes
@@ -154,6 +155,22 @@ example : (copyField .repaired exState 1 1 "b").isOk = true ∧
     frameH5 (copyField .repaired exState 1 1 "b").state 1 "b" = some ⟨.indexed, 2⟩ ∧
     frameH5 (copyField .repaired exState 1 1 "b").state 0 "b" = some ⟨.indexed, 2⟩ := by decide
 example : (delItem exState 0 "a").isOk = true ∧ frameH5 (delItem exState 0 "a").state 0 "b" = some ⟨.indexed, 2⟩ := by decide
+
+/-- No call, in any state, for either variant of the code, changes the type or the data of a field object that already
+    exists: whatever name (if any) an object is linked under afterwards, it reads back as before. -/
+theorem objects_never_change (v : Variant) (s : State) (op : Op) {oid : Nat} {c : Content} (hc : s.objs[oid]? = some c) :
+    (step v s op).state.objs[oid]? = some c :=
+  (step_objs v s op).get hc
+
+/-- … and so over every history. -/
+theorem objects_never_change_run (v : Variant) (ops : List Op) (s : State) {oid : Nat} {c : Content}
+    (hc : s.objs[oid]? = some c) : (run v s ops).objs[oid]? = some c := by
+  induction ops generalizing s with
+  | nil => exact hc
+  | cons op ops ih => simp only [run]; exact ih _ (objects_never_change v s op hc)
+
+example : exState.objs[1]? = some ⟨.indexed, 2⟩ ∧
+    (run .repaired exState [.rename 0 "x" exDict, .moveFrame 0 "x" 1 "y", .reopen 1]).objs[1]? = some ⟨.indexed, 2⟩ := by decide
 
 /-! ### move -/
 
